@@ -7,7 +7,9 @@
      ~             outside both kinds of quotes: the value of HOME (if set and not empty)
      $NAME ${NAME} $(NAME)   outside single quotes: the value from the environment, nothing if
                    unset; the text before and after is kept
-     %name(args)   the args are expanded first (innermost call first), then the built-in is
+     %name(args)   name is the first entry of the function table - the library's built-ins, then
+                   the functions the application registered, in that order - that the text
+                   calls; the args are expanded first (innermost call first), then the function is
                    applied to the result; its text replaces the call.  % followed by anything
                    else stands for that character; a % that ends the text stays
      quotes        are copied; they only switch the rules above
@@ -130,6 +132,9 @@ Variable genv : list byte -> option (list byte).
 Variable progname progver : list byte.
 Variable exec_out : list byte -> exec_answer.
 Variable dir_list : list byte -> dir_answer.
+(* the functions the application registered (name, code), and what they answer *)
+Variable extra : list (list byte * Z).
+Variable ufn : Z -> option (list byte) -> option (list byte).
 
 (* %exec(command) *)
 Definition s_exec (a : option (list byte)) : bres :=
@@ -197,7 +202,8 @@ Definition s_builtin (code : Z) (a : option (list byte)) (st : store) : bres * s
     | None => (BNull, st)
     | Some _ => (BExt Random, st)
     end
-  else (s_dirscan a, st).
+  else if code =? 6 then (s_dirscan a, st)
+  else (bres_of (ufn code a), st).
 
 (* ---------- the expansion ---------- *)
 Inductive stop : Type := StNull | StExt (e : ext).
@@ -245,7 +251,7 @@ Fixpoint sx (n : nat) (s : list byte) (q1 q2 : bool) (st : store) {struct n} : s
           else emit [c; d] (sx n' t' q1 q2 st)
         end
       else if c =? 37 then                                       (* % *)
-        match find_call builtin_table t with
+        match find_call (full_table extra) t with
         | None =>
           match t with
           | [] => SOut [c] st 0
